@@ -1057,6 +1057,10 @@ func buildIndex(byID *FeaturesByID, output Output) error {
 		}
 		for j, token := range allTokens {
 			pl.Fill(token, index[token].Begin())
+			if need := len(token) + PostingListHeaderMaxLength; need > len(buffer) {
+				// The header includes the token itself, which isn't bounded
+				buffer = make([]byte, need)
+			}
 			n := pl.Header.Marshal(buffer)
 			if err := stage(j, buffer[0:n], pl.IDs); err != nil {
 				return err
